@@ -455,7 +455,7 @@ class PurePython(Harness):
         if kind == "scrypt2":
             from passlib.crypto.scrypt._builtin import ScryptEngine
 
-            return lambda: ScryptEngine.execute(pw.encode(), b"NaCl", 4, 2, 2, 24).hex()
+            return lambda: ScryptEngine.execute(pw.encode(), b"NaCl", 2, 2, 1, 24).hex()
         raise KeyError(op)
 
     def post(self, st):
